@@ -184,7 +184,8 @@ fn roundtrip_case(rng: &mut Rng, rep: &mut Report, idx: u64) {
 fn gap(rng: &mut Rng, out: &mut Vec<u8>, allow_comment: bool) {
     let n = 1 + rng.below(3);
     for _ in 0..n {
-        out.push(rng.pick(b" \n\t\r  \n"));
+        // u8::is_ascii_whitespace: space, tab, LF, FF, CR
+        out.push(rng.pick(b" \n\t\r  \n\x0c"));
     }
     if allow_comment && rng.chance(1, 3) {
         out.push(b'#');
@@ -210,11 +211,11 @@ fn encode(rng: &mut Rng, magic: &[u8; 2], w: u32, h: u32, gray: &[u8], rgbs: &[[
     o.extend(b"255");
     match magic {
         b"P5" => {
-            o.push(rng.pick(b" \n\t\r"));
+            o.push(rng.pick(b" \n\t\r\x0c"));
             o.extend(gray);
         }
         b"P6" => {
-            o.push(rng.pick(b" \n\t\r"));
+            o.push(rng.pick(b" \n\t\r\x0c"));
             for c in rgbs {
                 o.extend(c);
             }
